@@ -57,6 +57,8 @@ private:
   std::atomic<bool> is_force_wakeup_background_worker_{false};
   std::atomic<uint64_t> force_flush_pending_sequence_{0};
   std::atomic<uint64_t> force_flush_notified_sequence_{0};
+  // Highest ForceFlush request that was served by a cycle whose export was cancelled for timeout.
+  std::atomic<uint64_t> force_flush_cancelled_sequence_{0};
   std::condition_variable cv_, force_flush_cv_;
   std::mutex cv_m_, force_flush_m_;
 
